@@ -525,3 +525,52 @@ def fragile_cells(b, config, margin=1e-7):
             if len(cs) > 1 and cs[0] - cs[1] < margin:
                 frag.add(cid)
     return frag
+
+
+def run_rewrite_history(base_spec, scratch, want):
+    """
+    "Start from non-initial states": successive mappings in ONE interpreter
+    whose input files are rewritten IN PLACE (same paths, new content)
+    between runs, with and without a scratch directory and through both
+    seams.  Every run is judged from the files as they are when it runs.
+    -> list of (step label, finding)
+    """
+    from mc import common
+    d = scratch.new_dir('rw') / 'in'
+    steps = [
+        ({'seed_shift': 0, 'n_cells': 5, 'id_prefix': 'q'}, 'result_dir',
+         'cli'),
+        ({'seed_shift': 1, 'n_cells': 5, 'id_prefix': 'r'}, 'result_dir',
+         'cli'),
+        ({'seed_shift': 2, 'n_cells': 5, 'id_prefix': 'r',
+          'reverse_ids': True}, 'result_dir', 'cli'),
+        ({'seed_shift': 3, 'n_cells': 4, 'id_prefix': 'q'}, 'result_dir',
+         'direct'),
+        ({'seed_shift': 4, 'n_cells': 4, 'id_prefix': 's'}, 'tmp_dir',
+         'cli'),
+        ({'seed_shift': 5, 'n_cells': 6, 'id_prefix': 'q'}, 'result_dir',
+         'direct'),
+    ]
+    out = []
+    n = 0
+    for si, (delta, buf, seam) in enumerate(steps):
+        spec = dict(base_spec)
+        # same taxonomy, gene names and file paths; new profiles and cells
+        spec['value_seed'] = 1000 + base_spec['seed'] + delta['seed_shift']
+        for k in ('n_cells', 'id_prefix', 'reverse_ids'):
+            if k in delta:
+                spec[k] = delta[k]
+        common.close_leaked_h5()
+        b = scenario.build(spec, d)          # same paths, new content
+        cfg = {'buffer': buf, 'factor': 0.5, 'iterations': 3,
+               'chunk_size': 2, 'n_processors': 2}
+        if seam == 'cli':
+            res = run_and_judge(None, cfg, scratch, want=want, built=b)
+        else:
+            res = run_and_judge_direct(b, cfg, scratch, want=want)
+        n += 1
+        label = (f'step {si} of an in-place rewrite history (ids '
+                 f'{b.cell_ids}, buffers in {buf}, seam {seam})')
+        for f in res['findings']:
+            out.append((label, f))
+    return n, out
